@@ -5,7 +5,8 @@
   seeded.py runall                      run every stored change against its property's quick check (native mode only)
 """
 import sys, os, json, subprocess, shutil, time
-V = "/verif"
+V = os.environ.get("SEEDED_VERIF", "/verif")
+REPO = os.environ.get("SEEDED_REPO", "/repo")
 
 def sh(cmd, cwd=None, timeout=3600):
     p = subprocess.run(cmd, cwd=cwd, shell=isinstance(cmd, str), stdout=subprocess.PIPE, stderr=subprocess.STDOUT, text=True, timeout=timeout)
@@ -55,9 +56,9 @@ def run(name, tier="quick", modes="native"):
     dst = os.path.join(V, "seeded", name)
     meta = json.load(open(os.path.join(dst, "meta.json")))
     pid = meta.get("property") or name.split("_")[0]
-    rc, out = sh(["git", "status", "--porcelain"], cwd="/repo")
+    rc, out = sh(["git", "status", "--porcelain"], cwd=REPO)
     assert out.strip() == "", "/repo not clean: " + out
-    rc, out = sh(["git", "apply", os.path.join(dst, "patch.diff")], cwd="/repo")
+    rc, out = sh(["git", "apply", os.path.join(dst, "patch.diff")], cwd=REPO)
     assert rc == 0, out
     t0 = time.time()
     # the evidence file describes the unchanged tree: keep it out of the way of a run against a changed one
@@ -69,7 +70,7 @@ def run(name, tier="quick", modes="native"):
             cmd += ["--modes", modes]
         rc, out = sh(cmd, cwd=V, timeout=7200)
     finally:
-        sh(["git", "checkout", "--", "."], cwd="/repo")
+        sh(["git", "checkout", "--", "."], cwd=REPO)
         if keep is not None:
             open(ev, "w").write(keep)
     sigs = [l.split("signature: ")[1] for l in out.splitlines() if "signature: " in l]
